@@ -88,6 +88,11 @@ SHAPES = {
                             ins("tv", Sel([Item(Col(0, "zqk2"))], [J("first", Der(sel(["zqk2"], "tb"), alias="zqd2"))]))],
     "two_cte_names": [ins("tw", With([("zqc1", sel(["zqk1"], "ta"))], Sel([Item(Col(None, "zqk1"))], [J("first", Tab("zqc1"))]))),
                       ins("tv", With([("zqc2", sel(["zqk2"], "tb"))], Sel([Item(Col(None, "zqk2"))], [J("first", Tab("zqc2"))])))],
+    # a value written back to the table it came from, through a helper table: the path visits two columns of one table
+    "write_back": [ins("zqt1", sel([Item(Col(None, "ca"), alias="zqk1")], "ta")),
+                   ins("zqt2", sel([Item(Col(None, "zqk1"), alias="zqk2")], "zqt1")),
+                   ins("zqt1", sel([Item(Col(None, "zqk2"), alias="zqk3")], "zqt2")),
+                   ins("tw", sel([Item(Col(None, "zqk3"), alias="cz")], "zqt1"))],
     "union_hop": [ins("zqt1", SetOp("UNION ALL", [sel(["zqk1"], "ta"), sel(["cb"], "tb")])), ins("tw", sel(["zqk2"], "zqt2"))],
 }
 
